@@ -71,8 +71,8 @@ type MScope struct {
 	Parent int
 	Name   string
 	Kids   []int
-	Ctors  []*MFn          // home == this scope, in registration order
-	Decos  map[MKey]*MFn   // decorators registered in this scope
+	Ctors  []*MFn        // home == this scope, in registration order
+	Decos  map[MKey]*MFn // decorators registered in this scope
 	DecoL  []*MFn
 }
 
@@ -482,9 +482,9 @@ func (m *Model) Targets(f *MFn, l MLeaf) []*MFn {
 
 // CycleInfo describes what a DFS over R from f finds.
 type CycleInfo struct {
-	CtorCycle bool   // a cycle consisting of constructors only
-	DecoCycle bool   // a cycle through at least one decorator (KF-DECO-CYCLE pattern)
-	Path      []int  // fn ids of one cycle found
+	CtorCycle bool  // a cycle consisting of constructors only
+	DecoCycle bool  // a cycle through at least one decorator (KF-DECO-CYCLE pattern)
+	Path      []int // fn ids of one cycle found
 }
 
 func (m *Model) FindCycles(f *MFn) CycleInfo {
